@@ -221,6 +221,13 @@ def rule_i1(chk: Check) -> None:
                 for t in tg:
                     if (dotted(t) or "").startswith("self."):
                         full.add(dotted(t))
+        # filled by a helper: self._add(self.allow_networks, self.config.allow_list)
+        for c in calls(init.node):
+            argv = list(c.args) + [k.value for k in c.keywords]
+            if any("allow_list" in norm(a) for a in argv):
+                for a in argv:
+                    if (dotted(a) or "").startswith("self.") and "allow_list" not in norm(a):
+                        full.add(dotted(a))
     full |= {"self.config.allow_list"}
     okw = bool(tests)
     for t in tests:
